@@ -36,12 +36,16 @@ class Fleet:
         self.running = {a: set() for a in self.hosts}     # (shard, rid) reported as running by that NodeHost
         self.disk = {a: [] for a in self.hosts}           # persisted-log records of that NodeHost
         self.nrep = {a: 0 for a in self.hosts}
+        self.leader = {}                                  # shard -> replica that claims leadership in its reports (nobody else does)
+        self.foreign = {a: [] for a in self.hosts}        # shard ids in the ShardIdList that the view does not know (unmanaged shards)
         self.period = {a: rng.choice([1, 2, 3]) for a in self.hosts}     # the persisted-log list is included in every Nth report
         for s, size in zip(ids, sizes):
             members = {}
             for a in rng.sample(self.hosts, size):
                 members[self.new_rid()] = a
             self.shards[s] = dict(cci=rng.choice([1, 1, 3, size]), members=members, app=rng.randint(1, 3), defined=sorted(members))
+            if rng.random() < 0.5:
+                self.leader[s] = rng.choice(sorted(members))
             for rid, a in members.items():
                 self.running[a].add((s, rid))
                 self.disk[a].append((s, rid))
@@ -58,14 +62,25 @@ class Fleet:
         infos, ids = [], []
         for (s, rid) in sorted(self.running[a]):
             sh = self.shards[s]
-            infos.append(dict(shard=s, replica=rid, leader=False, cci=sh["cci"], incomplete=False, pending=False, members=sorted(sh["members"].items())))
+            infos.append(dict(shard=s, replica=rid, leader=self.leader.get(s) == rid, cci=sh["cci"], incomplete=False, pending=False,
+                              members=sorted(sh["members"].items())))
             if s not in ids:
                 ids.append(s)
+        ids += self.foreign[a]
         if incl is None:
             incl = self.nrep[a] % self.period[a] == 0
         self.nrep[a] += 1
         return ("R", dict(addr=a, rpc=self.rpc[a], region=self.region[a], plog_incl=bool(incl), plog=list(self.disk[a]) if incl else [],
                           shard_ids=ids, infos=infos))
+
+
+def foreign_ids(rng, f, a, s):
+    """shard ids unknown to the view for the ShardIdList of NodeHost a once it stops listing shard s: as many as / more than / fewer
+    than it takes to make the list as long as the number of shards the Drummer manages"""
+    kept = len(set(x[0] for x in f.running[a] if x[0] != s))
+    n = max(0, len(f.shards) - kept + rng.choice([-1, 0, 0, 1, 3]))
+    b = rng.choice([900, 7 + 100000, 5 + (1 << 32)])
+    return [b + i for i in range(n)]
 
 
 def behaviour(rng, kind, K, horizon):
@@ -126,6 +141,10 @@ def gen_fleet_trace(rng, ttl, step, spare=None, k_off=None):
             return
         vrid, va = rng.choice(cands)
         silent_from[va] = r0
+        if rng.random() < 0.5:
+            f.leader[s] = vrid                           # the flag stays on the failed member: nobody else claims leadership
+        if rng.random() < 0.5:
+            f.foreign[va] = foreign_ids(rng, f, va, s)
         if rng.random() < 0.2:                           # ... and resumes much later with what it knew
             resume_at[va] = r0 + K + rng.choice([2, 5, 9])
         d = rng.choice([1, 2, 3])
@@ -185,14 +204,18 @@ def gen_fleet_trace(rng, ttl, step, spare=None, k_off=None):
     return ops
 
 
-PLOG_EVENTS = ["keep", "remove", "empty", "others", "empty_back"]
+PLOG_EVENTS = ["keep", "remove", "empty", "others", "empty_back", "swap"]
 PLOG_MODES = ["steady", "gap_long", "gap_short"]
+PLOG_SIZES = [31, 32, 33, 40, 100]
 
 
-def gen_plog_trace(rng, ttl, step, kind=None, mode=None):
+def gen_plog_trace(rng, ttl, step, kind=None, mode=None, nrec=None, twice=None):
     """C12 persisted-log dimension: the replica of a member stops being reported while its NodeHost stays live (or comes back after
     a gap); the NodeHost's included persisted-log lists shrink / empty / name other replicas / come back.
-    kind / mode given: the directed grid (what happens to the list x whether the NodeHost misses reports), for every victim."""
+    kind / mode given: the directed grid (what happens to the list x whether the NodeHost misses reports), for every victim.
+    nrec: the victims' NodeHosts hold that many records (leftovers of shards that are gone); twice: the list changes BETWEEN two
+    reports of one NodeHost processed at the same logical time (no tick in between), both including the list, with a scheduling
+    round after each - once the member is failed ("swap" = same length, another record)."""
     K = ttl // step
     size = rng.choice([3, 3, 3, 5])
     f = Fleet(rng, size + rng.choice([0, 1, 1, 2]), [size] * rng.choice([1, 1, 2]))
@@ -205,12 +228,20 @@ def gen_plog_trace(rng, ttl, step, kind=None, mode=None):
     for a in f.hosts:
         if rng.random() < 0.3:
             f.disk[a].append((s, rng.choice([901, mem[0][0] + 100000, mem[0][0] + (1 << 32)])))
-    events, silent = {}, {}
+    events, silent, mid = {}, {}, {}
 
     def at(r, fn):
         events.setdefault(r, []).append(fn)
     horizon = 0
+    if nrec is None and rng.random() < 0.25:
+        nrec = rng.choice(PLOG_SIZES)
+    if twice is None:
+        twice = rng.random() < 0.3
+    if rng.random() < 0.5:
+        f.leader[s] = victims[0][0]                      # the flag stays on the failed member
     for (vrid, va) in victims:
+        if nrec:
+            f.disk[va] = f.disk[va] + [(7000 + i, 1 + i % 3) for i in range(max(0, nrec - len(f.disk[va])))]
         k_stop = rng.randint(2, 6)
         vmode = mode or rng.choice(["steady", "steady", "steady", "gap_long", "gap_long", "gap_short"])
         g = 0
@@ -223,8 +254,11 @@ def gen_plog_trace(rng, ttl, step, kind=None, mode=None):
         vkind = kind or rng.choice(PLOG_EVENTS + ["empty"])
         k_ev = k_stop + (rng.randint(0, max(1, g - 1)) if g else rng.randint(0, 5))
 
-        def stop(_r, vrid=vrid, va=va):
+        ffor = foreign_ids(rng, f, va, s) if rng.random() < 0.4 else []
+
+        def stop(_r, vrid=vrid, va=va, ffor=ffor):
             f.running[va].discard((s, vrid))
+            f.foreign[va] = ffor
         at(k_stop, stop)
 
         def ev(r, vrid=vrid, va=va, kind=vkind):
@@ -239,9 +273,14 @@ def gen_plog_trace(rng, ttl, step, kind=None, mode=None):
                     at(r + rng.choice([2, 3, 5]), back)
             elif kind == "others":
                 f.disk[va] = [x for x in d if x != (s, vrid)] + [(s, vrid + rng.choice([1, 100000, 1 << 32])), (s + rng.choice([1, 100000]), vrid)]
-        if vkind != "keep":
+            elif kind == "swap":                         # same length, another record in its place
+                f.disk[va] = [(x if x != (s, vrid) else rng.choice([(s, vrid + rng.choice([1, 100000])), (s + 100000, vrid)])) for x in d]
+        if vkind != "keep" and twice:
+            k_ev = k_stop + max(g, 0) + K + rng.choice([1, 2, 3])      # the member is failed, its NodeHost is live (again)
+            mid.setdefault(k_ev, []).append((va, ev))
+        elif vkind != "keep":
             at(k_ev, ev)
-        horizon = max(horizon, k_stop + max(g, 0) + K + rng.choice([2, 3, 4]), k_ev + 8)
+        horizon = max(horizon, k_stop + max(g, 0) + K + rng.choice([2, 3, 4]), k_ev + 8 if not twice else k_ev + 3)
     ops = f.define_ops()
     for r in range(1, horizon + 1):
         for fn in events.pop(r, []):
@@ -256,6 +295,13 @@ def gen_plog_trace(rng, ttl, step, kind=None, mode=None):
             # the first report after a gap announces the list (a restarted NodeHost reads its LogDB) - most of the time
             ops.append(f.report(a, incl=True if (back_now and rng.random() < 0.7) else None))
         ops.append(("LC",))
+        for (a, fn) in mid.pop(r, []):
+            if a in silent and silent[a][0] <= r < silent[a][1]:
+                fn(r)
+                continue
+            ops += [f.report(a, incl=True), ("LC",)]     # same logical time: list A, a scheduling round,
+            fn(r)
+            ops += [f.report(a, incl=True), ("LC",)]     # list B, a scheduling round
     return ops
 
 
